@@ -616,7 +616,7 @@ func init() {
 	register(&Property{
 		ID:    "C07",
 		Level: "other",
-		Explanation: "Decides the structural necessary conditions of all-or-nothing block processing on every path of the code (not the behaviour under concrete faults): TX-pair — in every ProcessBlock/Reorg of the three stores (and every other function of the store, tree and db packages that begins a transaction) each path from the successful begin to a function exit commits, rolls back, or has a deferred rollback registered whose flag is cleared only after Commit()==nil; TX-through — every SQL write (Exec, meddler.Insert/Update/Save) in the transaction scope and its callee cone (static callees plus repository implementations of interface methods) uses the transaction, never the *sql.DB; TX-mem — every in-memory frontier write of AppendOnlyTree (lastIndex, lastLeftCache, in AddLeaf and initCache) is dominated by the registration on the same tx of a rollback callback that resets lastIndex to the constructor's not-initialised sentinel, and the index-mismatch test always rebuilds before a root is stored; TX-frame — the set of fields of the long-lived store objects written after construction is computed and must be within the accounted table; C07-halt-or-retry — ProcessBlock returns ErrInconsistentState (on which the driver stops retrying) only when the processor is halted or has just latched halted=true, and the sentinel error is produced nowhere below ProcessBlock; C07-order — the block row is the first write and nothing is written after Commit. The retry-the-same-block half is C05-retry.",
+		Explanation: "Decides the structural necessary conditions of all-or-nothing block processing on every path of the code (not the behaviour under concrete faults): TX-pair — in every ProcessBlock/Reorg of the three stores (and every other function of the store, tree and db packages that begins a transaction) each path from the successful begin to a function exit commits, rolls back, or has a deferred rollback registered whose flag is cleared only after Commit()==nil; TX-through — every SQL write (Exec, meddler.Insert/Update/Save) in the transaction scope and its callee cone (static callees plus repository implementations of interface methods) uses the transaction, never the *sql.DB; TX-mem — every in-memory frontier write of AppendOnlyTree (lastIndex, lastLeftCache, in AddLeaf and initCache) is dominated by the registration on the same tx of a rollback callback that resets lastIndex to the constructor's not-initialised sentinel, and the index-mismatch test always rebuilds before a root is stored; TX-frame — the set of fields of the long-lived store objects written after construction is computed and must be within the accounted table; C07-halt-or-retry — ProcessBlock returns ErrInconsistentState (on which the driver stops retrying) only when the processor is halted or has just latched halted=true, and the sentinel error is produced nowhere below ProcessBlock; C07-order — the block row is the first write and nothing is written after Commit. The retry-the-same-block half is C05-retry. Added after round 7: C07-schema (column affinity; references not deferred to COMMIT), C07-clear (halt lifted only after the reorg committed, shared with C14).",
 		Assumptions: []string{
 			"the SQL engine's transactions are atomic and durable (trusted)",
 			"if Rollback itself fails the callbacks do not run; the next AddLeaf then relies on the index comparison only (documented in DESIGN.md C07)",
